@@ -177,6 +177,8 @@ def check_sweep(case, log, y):
                     msg = None
                 elif sc["fn"] != ev_["fn"]:
                     msg = "%s drawn with %s, the model requires %s (%s)" % (label, ev_["fn"], sc["fn"], sc["kind"])
+                elif sc["fn"] == "normal" and len(sc["loc"]) != max(1, np.asarray(ev_["out"]).size):
+                    msg = "%s is a draw of %d value(s), %d were requested in this call" % (label, len(sc["loc"]), np.asarray(ev_["out"]).size)
                 elif sc["fn"] == "normal":
                     msg = vec_close(ev_["loc"], sc["loc"], env, label + " normal mean") or vec_close(ev_["scale"], sc["scale"], env, label + " normal sd")
                 elif sc["fn"] == "gamma":
